@@ -410,6 +410,11 @@ func (runInfo *runInfoStruct) makeCallArgs(rt reflect.Type, isRunVMFunction bool
 		numIn--
 	}
 	if numIn < 1 {
+		if len(callExpr.SubExprs) > 0 && !callExpr.VarArg {
+			runInfo.err = newStringError(callExpr, fmt.Sprintf("function wants %v arguments but received %v", numIn, len(callExpr.SubExprs)))
+			runInfo.rv = nilValue
+			return nil, false
+		}
 		// no arguments needed
 		if isRunVMFunction {
 			// for runVMFunction first arg is always context
